@@ -166,7 +166,156 @@ type Guard struct {
 // dominator D ending in an If, if exactly one successor S of D satisfies
 // "S dominates b and S's only predecessor is D" the corresponding polarity is
 // known on entry to b.
+//
+// In addition the conditions are threaded through merges (threadGuards): when a known
+// condition fixes the value of a phi so that only one of its incoming edges can have been
+// taken, the conditions known on that edge are known too.
 func Guards(b *ssa.BasicBlock) []Guard {
+	return threadGuards(domGuards(b), 0)
+}
+
+// threadGuards: for a known condition `phi == c`, `phi != c` (c nil or a constant) or a phi of
+// constant booleans used as the condition itself, an incoming edge of the phi whose value
+// contradicts the condition was not the edge taken. If exactly one edge remains, control came
+// through that predecessor the last time the merge was executed, so the conditions dominating
+// that predecessor — and the condition of the branch from it, if any — hold as well. (This is
+// what makes `x, err := helper(); if err != nil { return } …` after an expanded helper as
+// informative as the helper's own early returns were.)
+func threadGuards(gs []Guard, depth int) []Guard {
+	if depth > 3 {
+		return gs
+	}
+	out := gs
+	seen := map[*ssa.Phi]bool{}
+	for i := 0; i < len(out) && i < 64; i++ {
+		g := out[i]
+		var phi *ssa.Phi
+		var m0 *ssa.BasicBlock
+		excluded := func(e ssa.Value, pred *ssa.BasicBlock) bool { return false }
+		if ph, ok := g.Cond.(*ssa.Phi); ok {
+			phi = ph
+			want := g.Pos
+			excluded = func(e ssa.Value, _ *ssa.BasicBlock) bool {
+				c, ok := e.(*ssa.Const)
+				return ok && c.Value != nil && c.Value.Kind() == constant.Bool && constant.BoolVal(c.Value) != want
+			}
+		} else if rel, ok := AsRel(g); ok && (rel.Op == token.EQL || rel.Op == token.NEQ) {
+			x, y := rel.X, rel.Y
+			if _, isC := x.(*ssa.Const); isC {
+				x, y = y, x
+			}
+			ph, isPhi := x.(*ssa.Phi)
+			c, isC := y.(*ssa.Const)
+			if !isPhi || !isC {
+				continue
+			}
+			phi = ph
+			m0 = ph.Block()
+			eq := rel.Op == token.EQL
+			excluded = func(e ssa.Value, pred *ssa.BasicBlock) bool {
+				if ec, ok := e.(*ssa.Const); ok {
+					same := (ec.Value == nil) == (c.Value == nil) && (ec.Value == nil || constant.Compare(ec.Value, token.EQL, c.Value))
+					return same != eq
+				}
+				if c.Value == nil && eq {
+					return definitelyNonNil(e, pred, m0, depth)
+				}
+				return false
+			}
+		}
+		if phi == nil || seen[phi] {
+			continue
+		}
+		seen[phi] = true
+		m := phi.Block()
+		k := -1
+		n := 0
+		for j, e := range phi.Edges {
+			if !excluded(e, m.Preds[j]) {
+				k = j
+				n++
+			}
+		}
+		if n != 1 {
+			continue
+		}
+		pred := m.Preds[k]
+		extra := threadGuards(domGuards(pred), depth+1)
+		if len(pred.Succs) == 2 && pred.Succs[0] != pred.Succs[1] {
+			idx := 0
+			if pred.Succs[1] == m {
+				idx = 1
+			}
+			if eg, ok := EdgeCond(pred, idx); ok {
+				extra = append(extra, eg)
+			}
+		}
+		for _, e := range extra {
+			dup := false
+			for _, o := range out {
+				if o.Cond == e.Cond && o.Pos == e.Pos {
+					dup = true
+				}
+			}
+			if !dup {
+				out = append(out, e)
+			}
+		}
+	}
+	return out
+}
+
+// definitelyNonNil: a freshly constructed error, or a value tested != nil on the way to pred.
+func definitelyNonNil(e ssa.Value, pred, to *ssa.BasicBlock, depth int) bool {
+	if c, ok := e.(*ssa.Call); ok {
+		if n := CallName(c); n == "errors.New" || n == "fmt.Errorf" {
+			return true
+		}
+	}
+	gs := domGuards(pred)
+	if depth < 3 {
+		gs = threadGuards(gs, depth+1)
+	}
+	if to != nil && len(pred.Succs) == 2 && pred.Succs[0] != pred.Succs[1] {
+		idx := 0
+		if pred.Succs[1] == to {
+			idx = 1
+		}
+		if eg, ok := EdgeCond(pred, idx); ok {
+			gs = append(gs, eg)
+		}
+	}
+	for _, g := range gs {
+		if rel, ok := AsRel(g); ok && rel.Op == token.NEQ && rel.X == e && IsNilConst(rel.Y) {
+			return true
+		}
+	}
+	if ph, ok := e.(*ssa.Phi); ok {
+		for j, pe := range ph.Edges {
+			if IsNilConst(pe) || !definitelyNonNilShallow(pe, ph.Block().Preds[j]) {
+				return false
+			}
+		}
+		return len(ph.Edges) > 0
+	}
+	return false
+}
+
+func definitelyNonNilShallow(e ssa.Value, pred *ssa.BasicBlock) bool {
+	if c, ok := e.(*ssa.Call); ok {
+		if n := CallName(c); n == "errors.New" || n == "fmt.Errorf" {
+			return true
+		}
+	}
+	for _, g := range domGuards(pred) {
+		if rel, ok := AsRel(g); ok && rel.Op == token.NEQ && rel.X == e && IsNilConst(rel.Y) {
+			return true
+		}
+	}
+	return false
+}
+
+func domGuards(b *ssa.BasicBlock) []Guard {
 	var out []Guard
 	for d := b.Idom(); d != nil; d = d.Idom() {
 		if len(d.Instrs) == 0 {
@@ -768,4 +917,48 @@ func (p *Program) Callers(fn *ssa.Function) []ssa.CallInstruction {
 		}
 	}
 	return out
+}
+
+// EmptinessTest interprets a guard as a test of a string (or slice) for emptiness, whichever way it
+// is spelt: v != "" / v == "", len(v) > 0 / != 0 / >= 1, len(v) == 0 / < 1 / <= 0. nonEmpty tells
+// which of the two is known to hold.
+func EmptinessTest(g Guard) (v ssa.Value, nonEmpty bool, ok bool) {
+	rel, isRel := AsRel(g)
+	if !isRel {
+		return nil, false, false
+	}
+	x, y, op := rel.X, rel.Y, rel.Op
+	if _, isC := x.(*ssa.Const); isC {
+		x, y = y, x
+		switch op {
+		case token.LSS:
+			op = token.GTR
+		case token.GTR:
+			op = token.LSS
+		case token.LEQ:
+			op = token.GEQ
+		case token.GEQ:
+			op = token.LEQ
+		}
+	}
+	if s, isS := ConstString(y); isS && s == "" {
+		switch op {
+		case token.NEQ:
+			return x, true, true
+		case token.EQL:
+			return x, false, true
+		}
+		return nil, false, false
+	}
+	if lx, isLen := LenOf(x); isLen {
+		if k, isC := ConstInt(y); isC {
+			switch {
+			case op == token.GTR && k == 0, op == token.NEQ && k == 0, op == token.GEQ && k == 1:
+				return lx, true, true
+			case op == token.EQL && k == 0, op == token.LSS && k == 1, op == token.LEQ && k == 0:
+				return lx, false, true
+			}
+		}
+	}
+	return nil, false, false
 }
